@@ -15,7 +15,9 @@ CONSTANTS BT,        \* block interval (ticks)
           Horizon,   \* time bound
           MaxNotifs,
           Lazy,      \* BOOLEAN: lazy mode / normal mode
-          DrainAfterIdle  \* BOOLEAN deviation: drop a queued notification after an idle-timer block (lost wake-up)
+          DrainAfterIdle, \* BOOLEAN deviation: drop a queued notification after an idle-timer block (lost wake-up)
+          Resumed, Age,   \* Resumed: the loop starts on an existing chain whose last block is Age ticks old (else a fresh chain)
+          StartWaitIdle   \* BOOLEAN deviation (seeded C17f): in lazy mode the start-up wait of a resumed chain is the idle interval
 
 VARIABLES now, bDL, lDL, slot, avail, busyUntil, started, starts, notifs, owe, oweBy
 
@@ -24,8 +26,11 @@ vars == <<now, bDL, lDL, slot, avail, busyUntil, started, starts, notifs, owe, o
 Idle == busyUntil = -1
 Max(a, b) == IF a > b THEN a ELSE b
 
-Init == /\ now = 0 /\ bDL = 0 /\ lDL = 0 /\ slot = 0 /\ avail = FALSE /\ busyUntil = -1 /\ started = 0
-        /\ starts = <<>> /\ notifs = 0 /\ owe = FALSE /\ oweBy = 0
+\* AggregationLoop waits until one block interval after the last block before it starts its timers; until then it
+\* listens to nothing but the stop request (a notification stays in its channel)
+StartAt == IF ~Resumed THEN 0 ELSE Max(0, (IF StartWaitIdle /\ Lazy THEN LZ ELSE BT) - Age)
+Init == /\ now = 0 /\ bDL = StartAt /\ lDL = StartAt /\ slot = 0 /\ avail = FALSE /\ busyUntil = -1 /\ started = 0
+        /\ starts = (IF ~Resumed THEN <<>> ELSE <<0 - Age>>) /\ notifs = 0 /\ owe = FALSE /\ oweBy = 0
 
 \* a notification arrives (non-blocking send into the one-slot channel)
 Notify == /\ notifs < MaxNotifs /\ now < Horizon - 2 * BT
@@ -36,7 +41,7 @@ Notify == /\ notifs < MaxNotifs /\ now < Horizon - 2 * BT
           /\ oweBy' = IF owe THEN oweBy ELSE IF Idle THEN now + BT ELSE 0
           /\ UNCHANGED <<now, bDL, lDL, avail, busyUntil, started, starts>>
 
-TakeNotify == /\ Idle /\ slot = 1 /\ slot' = 0 /\ avail' = TRUE
+TakeNotify == /\ Idle /\ now >= StartAt /\ slot = 1 /\ slot' = 0 /\ avail' = TRUE
               /\ UNCHANGED <<now, bDL, lDL, busyUntil, started, starts, notifs, owe, oweBy>>
 
 StartProd(d, viaIdle) ==
@@ -67,7 +72,7 @@ ProdEnd == /\ ~Idle /\ now >= busyUntil
            /\ UNCHANGED <<now, avail, started, starts, notifs>>
 
 \* time passes only when nothing is due
-Due == (Idle /\ (now >= bDL \/ (Lazy /\ now >= lDL) \/ slot = 1)) \/ (~Idle /\ now >= busyUntil)
+Due == (Idle /\ (now >= bDL \/ (Lazy /\ now >= lDL) \/ (slot = 1 /\ now >= StartAt))) \/ (~Idle /\ now >= busyUntil)
 Tick == /\ ~Due /\ now < Horizon /\ now' = now + 1
         /\ UNCHANGED <<bDL, lDL, slot, avail, busyUntil, started, starts, notifs, owe, oweBy>>
 
